@@ -24,8 +24,10 @@ def make_transparent(fd):
               termios.IGNCR | termios.ICRNL | termios.IXON | termios.IXOFF | termios.IXANY |
               getattr(termios, "IUTF8", 0))
     a[1] &= ~termios.OPOST
-    a[3] &= ~(termios.ISIG | termios.IEXTEN | termios.ECHO | termios.ECHONL)
+    a[3] &= ~(termios.ISIG | termios.IEXTEN | termios.ECHO | termios.ECHONL | termios.ICANON)
     cc = a[6]
+    cc[termios.VMIN] = 1
+    cc[termios.VTIME] = 0
     for name in ("VINTR", "VQUIT", "VSUSP", "VSTART", "VSTOP", "VLNEXT", "VDISCARD", "VEOF",
                  "VERASE", "VKILL", "VWERASE", "VREPRINT", "VEOL", "VEOL2"):
         idx = getattr(termios, name, None)
